@@ -409,7 +409,7 @@ fn place_faults(sc: &mut Scenario, prof: &RunOut, r: &mut Rng) {
 
 pub fn worker(cfg: &WorkerCfg, emit: &mut dyn FnMut(Violation)) -> Stats {
     let mut stats = Stats::default();
-    let scratch = match Scratch::new(&format!("hexio-w{}", cfg.worker)) {
+    let scratch = match Scratch::new(&format!("hexio-w{:02}", cfg.worker)) {
         Ok(s) => s,
         Err(e) => {
             stats.harness_errors.push(format!("scratch: {}", e));
@@ -553,7 +553,7 @@ pub fn worker(cfg: &WorkerCfg, emit: &mut dyn FnMut(Violation)) -> Stats {
 /// Replay one scenario in this process; returns the violation if it reproduces.
 pub fn replay(scv: &Value) -> Result<Option<Violation>, String> {
     let sc: Scenario = serde_json::from_value(scv.clone()).map_err(|e| e.to_string())?;
-    let scratch = Scratch::new("hexio-replay").map_err(|e| e.to_string())?;
+    let scratch = Scratch::new("hexio-w99").map_err(|e| e.to_string())?;
     unsafe {
         libc::signal(libc::SIGXFSZ, libc::SIG_IGN);
     }
